@@ -1556,7 +1556,8 @@ Stylesheet::processNSAliasElement(
 
     // Build a table of aliases, the key is the stylesheet uri and the
     // value is the result uri
-    if (stylesheetNamespace == 0)
+    // (a prefix bound to an empty namespace name is not a usable binding)
+    if (stylesheetNamespace == 0 || stylesheetNamespace->empty() == true)
     {
         error(
             constructionContext,
@@ -1565,7 +1566,7 @@ Stylesheet::processNSAliasElement(
             name,
             Constants::ATTRNAME_STYLESHEET_PREFIX.c_str());
     }
-    else if (resultNamespace == 0)
+    else if (resultNamespace == 0 || resultNamespace->empty() == true)
     {
         error(
             constructionContext,
